@@ -5,6 +5,7 @@ pub fn gen_case(profile: &str, rng: &mut Rng, out: &mut String) -> bool {
     match profile {
         "C01" => super::c01::gen_case(rng, out, false),
         "C07" => super::c01::gen_case(rng, out, true),
+        "C17" => super::c17::gen_case(rng, out),
         _ => return false,
     }
     true
